@@ -139,6 +139,13 @@ impl PeerGen {
                 { let s: &[u8] = *rng.pick(INVALID_UTF8); v.extend_from_slice(s); }
                 v
             }
+            4 => {
+                // any class of code with a reason that is not UTF-8
+                let code: u16 = *rng.pick(&[1000u16, 1005, 1006, 1015, 1016, 2999, 999, 0, 3000, 4999, 5000, 65535]);
+                let mut v = code.to_be_bytes().to_vec();
+                { let s: &[u8] = *rng.pick(INVALID_UTF8); v.extend_from_slice(s); }
+                v
+            }
             _ => {
                 let code: u16 = *rng.pick(&[
                     1000, 1001, 1002, 1003, 1004, 1005, 1006, 1007, 1011, 1013, 1014, 1015, 1016,
